@@ -1331,7 +1331,11 @@ func vfBulk(f []string) string {
 	}
 	m := vfNewMetric(kind, cap, 1, bks)
 	defer m.r.Shutdown(context.Background())
-	var tombs atomic.Int64
+	var tombs, early atomic.Int64
+	capEff := cap
+	if capEff == 0 {
+		capEff = DefaultMaxSeriesPerMetric
+	}
 	var wg sync.WaitGroup
 	bar := &vfBarrier{n: int32(g)}
 	for j := 0; j < g; j++ {
@@ -1344,6 +1348,11 @@ func vfBulk(f []string) string {
 				h.emit(false, "1")
 				if h.tomb() {
 					tombs.Add(1)
+					// a tombstone is legitimate only once the cap is reached; nothing is ever unregistered here, so
+					// seriesCount read AFTER the call must be at the cap (on an unbounded metric: never)
+					if capEff <= 0 || m.r.SeriesCount() < int64(capEff) {
+						early.Add(1)
+					}
 				}
 			}
 		}(j)
@@ -1370,7 +1379,7 @@ func vfBulk(f []string) string {
 			st = vfFloat(s.Value)
 		}
 	}
-	return fmt.Sprintf("bulk n=%d dcap=%d series=%d drops=%s tombs=%d sum=%d count=%s unknown=%s stale=%s", n, DefaultMaxSeriesPerMetric, series, d, tombs.Load(), sum, cnt, u, st)
+	return fmt.Sprintf("bulk n=%d dcap=%d series=%d drops=%s tombs=%d sum=%d count=%s unknown=%s stale=%s early=%d", n, DefaultMaxSeriesPerMetric, series, d, tombs.Load(), sum, cnt, u, st, early.Load())
 }
 
 func TestVerifC20(t *testing.T) {
@@ -1417,6 +1426,8 @@ func TestVerifC20(t *testing.T) {
 				done <- vfChurn(f)
 			case "bulk", "rbulk":
 				done <- vfBulk(f)
+			case "probe":
+				done <- "probe dcap=" + strconv.Itoa(DefaultMaxSeriesPerMetric)
 			default:
 				done <- "badline"
 			}
